@@ -144,7 +144,7 @@ structure Rfc3339 where
 
 /-- RFC 3339 as the `time` crate parses it: 4-digit year, any single byte as date/time separator,
 any number (≥ 1) of fraction digits, `Z`/`z` or ±hh:mm with hh ≤ 23 and mm ≤ 59; field ranges -/
-def parseRfc3339 (s : Str) : Option Rfc3339 := do
+def parseRfc3339Fields (s : Str) : Option Rfc3339 := do
   let (y, r) ← digitsN 4 s
   let r ← lit 45 r
   let (mo, r) ← digitsN 2 r
@@ -174,10 +174,17 @@ def parseRfc3339 (s : Str) : Option Rfc3339 := do
         some ((if sg == 45 then -1 else 1) * ((oh * 60 + om : Nat) : Int), r3)
     | [] => none
   if r != [] then none
-  else if mo < 1 || mo > 12 then none
-  else if d < 1 || d > daysInMonth y mo then none
-  else if h > 23 || mi > 59 || sec > 60 then none
   else some ⟨y, mo, d, h, mi, sec, offMin⟩
+
+/-- field ranges of a date-time: a real calendar date, 24-hour clock, seconds up to a leap second,
+an offset below a day -/
+def rfcValid (p : Rfc3339) : Bool :=
+  decide (1 ≤ p.mo) && decide (p.mo ≤ 12) && decide (1 ≤ p.d) && decide (p.d ≤ daysInMonth p.y p.mo) &&
+  decide (p.h ≤ 23) && decide (p.mi ≤ 59) && decide (p.sec ≤ 60) && decide (-1440 < p.offMin) && decide (p.offMin < 1440)
+
+/-- RFC 3339 as the `time` crate parses it: the grammar, then the field ranges -/
+def parseRfc3339 (s : Str) : Option Rfc3339 :=
+  (parseRfc3339Fields s).bind fun p => if rfcValid p then some p else none
 
 /-- `TDate::from_json`: parse, convert to UTC (an offset moves the date by at most one day), drop
 the sub-second part; a leap second only where it can occur (last second of a month, UTC) and then
